@@ -154,7 +154,11 @@ pub trait BlsSignatureProof:
         if let Some(tt) = timeout_ms {
             let now = SystemTime::now();
             let since = UNIX_EPOCH + Duration::from_millis(t);
-            let elapsed = now.duration_since(since).unwrap().as_millis() as u64;
+            // a timestamp later than the current time cannot come from an honest prover
+            let elapsed = match now.duration_since(since) {
+                Ok(d) => d.as_millis() as u64,
+                Err(_) => return Err(BlsError::InvalidProof),
+            };
             if elapsed > tt {
                 return Err(BlsError::InvalidProof);
             }
